@@ -69,6 +69,15 @@ CHECKS = {
             'checked against the identifiers of F (CPython parser) and F namespace. Every name root must have been requested at least once.',
             'Identifier set taken from ast.parse of inspect.getsource(F).',
             'DESIGN.md 3/C11'),
+    'C13': ('fault_enumeration',
+            'failpoints at every pipeline stage x exception class around the real converted_call, plus transparency/policy monitors',
+            'converted_call is compared with the direct call for 30 callable kinds x argument shapes x option sets x context '
+            'statuses (result, ordered log, binding, target ran once); the conversion decision is observed through wrapped '
+            'operators and compared with the documented policy table; a fault of each of 9 exception classes is injected at each '
+            'of 23 pipeline stages (and, thorough, at sampled LINE events inside malt/ during conversion): the call must return the '
+            "target's result, run it once, warn, and not attempt conversion again on an identical second call; strict mode must raise.",
+            'Faults are Exception subclasses raised at stage entry or line boundaries; policy table from functions.md.',
+            'DESIGN.md 3/C13'),
     'C14': ('exploration',
             'differential of each overload against the builtin with logging iterators (laziness) and captured output',
             'Every accepted call shape of the 13 substituted builtins over 10+ value classes (incl. rejected values) is executed on '
